@@ -56,6 +56,7 @@ type Spec struct {
 	Chunks    []string `json:"chunks"`           // hex
 	Fault     string   `json:"fault"`            // "" | eof | eio : what Read returns after the script
 	Runs      int      `json:"runs"`
+	Persist   string   `json:"persist,omitempty"` // the application shows a persistent hint (Shell.Hint.Persist)
 	Stty      bool     `json:"stty,omitempty"` // the application changes the terminal modes between two calls
 	Patience  int      `json:"patience,omitempty"` // watchdog multiplier (scripts in which macros run macros)
 	// CPRWith: the N-th cursor position report of the session (N = key, from 1) reaches the library in the same
